@@ -94,11 +94,35 @@ def expected_edges(h):
     return want
 
 
+def partial_call(case):
+    """A module in which a function is called (and loaded) with only the first `given` of its arguments
+    wired: the static edge still ends right after all the value inputs of the call."""
+    import hugr.tys as tys
+    from hugr.build.function import Module
+
+    from vlib.interp import mk_row
+
+    ins = mk_row(case["ins"])
+    outs = mk_row(case["outs"])
+    m = Module()
+    f = m.declare_function("callee", tys.PolyFuncType([], tys.FunctionType(ins, outs)))
+    main = m.define_function("main", ins, [])
+    given = list(main.inputs())[: case["given"] % (len(ins) + 1)]
+    c = main.call(f, *given)
+    main.load_function(f)
+    if case.get("order"):
+        main.add_state_order(main.input_node, c)
+    main.set_outputs()
+    return m.hugr
+
+
 def check_hugr(case) -> list[Fail]:
     if "op" in case:
         from vlib.props import c05
 
         h = c05.order_probe(case["op"])  # one node of a generated operation between two order edges
+    elif "given" in case:
+        h = partial_call(case)
     else:
         h, flags = c02.build(case)
     try:
@@ -116,7 +140,7 @@ def check_hugr(case) -> list[Fail]:
             only = [x for x in ga if x not in wa][:3]
             f.append(Fail("edge-addressing", "edges-differ", f"document-only={only} expected-only={[x for x in wa if x not in ga][:3]}"))
     # (d) static edges built by the builders end at the static port: right after the value inputs
-    if "prog" in case and not case.get("mut"):
+    if ("prog" in case and not case.get("mut")) or "given" in case:
         sigs = [refval.jsig(n) for n in doc["nodes"]]
         for (s_, so), (d_, do) in doc["edges"]:
             if doc["nodes"][s_]["op"] in ("FuncDefn", "FuncDecl", "Const") and so == 0:
@@ -181,6 +205,8 @@ SUBS = [
         nontrivial=nontrivial, classes=lambda c: sorted(set(c["prog"].get("classes", [])) & {"call", "polymorphic-call", "arity-changing-instantiation", "load-function", "function-called-twice"}), n_quick=80, n_thorough=600,
         sample_ok=lambda c: len(json.dumps(c)) < 3000),
     Sub("raw", check_hugr, strategy=c02.raw_strategy, nontrivial=nontrivial, classes=lambda c: sorted(facts(c) & {"delete-node", "static-edge", "order-edge-with-unconnected-port", "multi-link", "order-link"}), n_quick=200, n_thorough=1500),
+    Sub("partial-calls", check_hugr, strategy=lambda tier: st.fixed_dictionaries({"ins": st.lists(__import__("vlib.asts", fromlist=["x"]).types(1, copy_only=True), min_size=1, max_size=4), "outs": st.lists(__import__("vlib.asts", fromlist=["x"]).types(1, copy_only=True), max_size=2), "given": st.integers(0, 4), "order": st.booleans()}),
+        nontrivial=lambda c: c["given"] % (len(c["ins"]) + 1) < len(c["ins"]), classes=lambda c: ["all-arguments-wired" if c["given"] % (len(c["ins"]) + 1) == len(c["ins"]) else "some-arguments-unwired"], n_quick=100, n_thorough=800),
     Sub("order-ports-by-kind", check_hugr, strategy=lambda tier: __import__("vlib.props.c05", fromlist=["x"]).order_ports_strategy(tier), nontrivial=lambda c: c["op"]["k"] in ("Call", "LoadFunc", "LoadConst", "CallIndirect"),
         classes=lambda c: [c["op"]["k"]], n_quick=150, n_thorough=1500),
     Sub("order-ports", check_hugr, strategy=c02.order_strategy, nontrivial=nontrivial, classes=lambda c: sorted(facts(c) & {"delete-node", "order-link", "order-edge-with-unconnected-port"}), n_quick=150, n_thorough=1000),
